@@ -89,6 +89,15 @@ let () =
         let (args, cff, tail) = split [] rest in
         let cf = String.sub cff 2 (String.length cff - 2) in
         let lf = List.nth tail 0 and bf = List.nth tail 1 and nf = List.nth tail 2 in
+        let wf = (match List.nth_opt tail 3 with Some w when String.length w >= 2 && String.sub w 0 2 = "W=" -> String.sub w 2 (String.length w - 2) | _ -> "none") in
+        let wire = if wf = "none" then [] else String.split_on_char ';' wf in
+        (* request streams as the gate saw them: RawScan "limit:start:end" (reverse: start = upper bound), RawChecksum "start:end" *)
+        let wire_scans = List.filter_map (fun w -> match String.split_on_char ':' w with
+          | ["scan"; _; rev; lim; lo; hi] -> Some (if rev = "1" then lim ^ ":" ^ lo ^ ":" ^ hi else lim ^ ":" ^ lo ^ ":" ^ hi) | _ -> None) wire in
+        let wire_cksums = List.filter_map (fun w -> match String.split_on_char ':' w with
+          | ["cksum"; lo; hi] -> Some (lo ^ ":" ^ hi) | _ -> None) wire in
+        let stream_cmp (want : string list) (got : string list) (ok : string) =
+          if want = got then ok else "model-stream " ^ String.concat ";" want in
         let hx_tr (l : n list) : string = hx l in ignore hx_tr;
         let impl = List.nth tail (List.length tail - 1) in
         let lso = layouts_of lf in
@@ -148,25 +157,37 @@ let () =
           | "drange" ->
               if failed then
                 (match drange_run st lso (bx (arg 0)) (bx (arg 1)) with
-                 | DrFailed (s, _) -> set s; "err injected"
+                 | DrFailed (s, _) -> set s;
+                     stream_cmp (List.map (fun (a, b) -> hx a ^ ":" ^ hx b) (drange_reqs lso (bx (arg 0)) (bx (arg 1)))) bats "err injected"
                  | DrDone _ -> "model-done-before-the-failing-request"
                  | DrFuel -> "model-needs-more-iterations")
               else
               (match run_loop ls (fun l -> drange_loop st l (bx (arg 0)) (bx (arg 1))) with
-               | Ok s -> set s; "ok" | Error e -> e)
+               | Ok s -> set s;
+                   stream_cmp (List.map (fun (a, b) -> hx a ^ ":" ^ hx b) (drange_reqs lso (bx (arg 0)) (bx (arg 1)))) bats "ok"
+               | Error e -> e)
           | "scan" ->
               (match run_loop ls (fun l -> match client_scan st l (bx (arg 0)) (bx (arg 1)) (nat_of_int (int_of_string (arg 2))) with
                                           | None -> Some None | Some None -> None | Some (Some ps) -> Some (Some ps)) with
-               | Ok (Some ps) -> kvres ps | Ok None -> "err limit" | Error e -> e)
+               | Ok (Some ps) ->
+                   let reqs = scan_reqs st ls (bx (arg 0)) (bx (arg 1)) (nat_of_int (int_of_string (arg 2))) O in
+                   stream_cmp (List.map (fun ((c, e), n) -> Printf.sprintf "%d:%s:%s" (int_of_nat n) (hx c) (hx e)) reqs) wire_scans (kvres ps)
+               | Ok None -> "err limit" | Error e -> e)
           | "rscan" ->
               (match run_loop ls (fun l -> match client_rscan st l (bx (arg 0)) (bx (arg 1)) (nat_of_int (int_of_string (arg 2))) with
                                           | None -> Some None | Some None -> None | Some (Some ps) -> Some (Some ps)) with
-               | Ok (Some ps) -> kvres ps | Ok None -> "err limit" | Error e -> e)
+               | Ok (Some ps) ->
+                   let reqs = rscan_reqs st ls (bx (arg 0)) (bx (arg 1)) (nat_of_int (int_of_string (arg 2))) O in
+                   (* on the wire the lower bound comes first: lo = EndKey, hi = StartKey *)
+                   stream_cmp (List.map (fun ((c, e), n) -> Printf.sprintf "%d:%s:%s" (int_of_nat n) (hx e) (hx c)) reqs) wire_scans (kvres ps)
+               | Ok None -> "err limit" | Error e -> e)
           | "cksum" ->
               (* handleKvRawChecksum reads column family CF_DEFAULT whatever the client says *)
               (match run_loop ls (fun l -> cksum digest (get_st "CF_DEFAULT") l (bx (arg 0)) (bx (arg 1))) with
-               | Ok c -> Printf.sprintf "ok %s %d %d" (hex_of_n c.c_xor) (int_of_n c.c_kvs)
-                           (int_of_n c.c_bytes + List.length !prefix * int_of_n c.c_kvs)  (* "including prefix in APIV2" *)
+               | Ok c ->
+                   stream_cmp (List.map (fun (a, b) -> hx a ^ ":" ^ hx b) (cksum_reqs ls (bx (arg 0)) (bx (arg 1)))) wire_cksums
+                     (Printf.sprintf "ok %s %d %d" (hex_of_n c.c_xor) (int_of_n c.c_kvs)
+                           (int_of_n c.c_bytes + List.length !prefix * int_of_n c.c_kvs))  (* "including prefix in APIV2" *)
                | Error e -> e)
           | "cas" ->
               if !nonatomic then "err atomic" else
